@@ -126,3 +126,44 @@ def check(facts, rep, rid, prop):
                                                                        ", ".join(sorted(x.split("::", 1)[1] for x in allowed)) or "no function", prop))
     if n == 0:
         rep.info("%s: no %s-relevant resource access in this configuration" % (rid, prop))
+
+
+_CELL = ("OnceCell<", "OnceLock<", "LazyLock<", "LazyCell<", "Lazy<", "Mutex<", "RwLock<", "ArcSwap", "RefCell<", "thread::LocalKey<", "AtomicPtr<", "AtomicBool")
+_ANCHORS = None
+
+
+def _anchor_files(prop):
+    global _ANCHORS
+    if _ANCHORS is None:
+        import json, os
+        _ANCHORS = {}
+        p = os.path.join(os.path.dirname(os.path.dirname(os.path.abspath(__file__))), "properties.jsonl")
+        for l in open(p):
+            j = json.loads(l)
+            _ANCHORS[j["id"]] = set(j["anchors"]["files"])
+    return _ANCHORS.get(prop, set())
+
+
+def check_new_statics(facts, rep, rid, prop):
+    """Process-wide mutable state (a `static` holding a cell / lock / once-cell) that the reference tree does not have, in a file the
+    property is anchored in: the property's rules reason about per-connection / per-call state; a value cached across calls or
+    connections is outside what they establish (e.g. a TLS connector built once from the first caller's settings)."""
+    import normalize
+    known = normalize.inventory().get("__consts__", {})
+    files = _anchor_files(prop)
+    n = 0
+    for crate in facts.crates.values():
+        for b in crate.bodies:
+            if not b.kind.startswith("Static") or b.dp in known:
+                continue
+            ty = b.locals[0]["s"]
+            if not any(c in ty for c in _CELL) or "tracing::" in ty:
+                continue
+            if not any(b.file.endswith(f) for f in files):
+                continue
+            n += 1
+            rep.bad(rid, "new-static/%s" % b.path, "%s (%s)" % (loc_str(b.loc), b.path),
+                    "new process-wide mutable state `%s: %s` in a file %s is anchored in: what it caches outlives the call / connection it was "
+                    "computed for, which none of the property's rules accounts for" % (b.path, ty[:80], prop))
+    if n == 0:
+        rep.ok(rid, "no-new-process-wide-state", "", "no new static cell / lock in the anchored files", nontrivial=False)
